@@ -52,7 +52,8 @@ impl PropCase for Term {
         };
         let ek = st.first_err.map(|e| e.name()).unwrap_or("none");
         ctx.class_s(&format!("stopped-at={} err={} K={}", phase, ek, if self.k >= 1000 { "1000" } else { "<=64" }));
-        ctx.bump(&format!("floor:error-phase:{}", phase));
+        ctx.bump(&format!("hook:error-phase:{}", phase));
+        ctx.bump(if st.first_err.is_some() { "floor:ended-with-error" } else { "floor:ended-cleanly" });
         ctx.maxi("max_further_calls", self.k as u64);
         if ctx.want_sample(phase) {
             ctx.sample(phase, || format!("[{}] {} -> {} events, first error {}, then None x {}", self.family, hex_short(x), st.events.len(), ek, self.k));
@@ -106,13 +107,7 @@ pub fn run(ctx: &mut Ctx) {
     }
 }
 
-pub const FLOORS: &[&str] = &[
-    "floor:error-phase:message-start",
-    "floor:error-phase:list-entry",
-    "floor:error-phase:list-trailer",
-    "floor:error-phase:crc/end-marker",
-    "floor:error-phase:clean-end",
-];
+pub const FLOORS: &[&str] = &["floor:ended-with-error", "floor:ended-cleanly"];
 
 pub const RULE: &str = "cases = (byte string x, K): every bit flip of the documented close message, per-offset corruptions / TLF substitutions / length manipulations of small files (stale and recomputed checksum), list responses truncated after every entry, \
 valid multi-message files, splices, random bytes, the empty input; K further calls (1..64, 1000 for 1 %). The monitor calls next() itself: more than |x|+1 items, a second error, or anything but None on one of the K further calls is a violation \
